@@ -43,6 +43,12 @@ def _programs(tier):
                                               {'reg': [['b', 1, 'oldchild', how]], 'ret': None}, {'reg': [], 'ret': 'end'}]}
     progs['oldchild_two'] = {'steps': [{'pre': [1, 2], 'reg': [['a', 0, 'fut', 'call']], 'ret': None},
                                        {'reg': [['b', 1, 'oldchild', 'ret'], ['c', 2, 'oldchild', 'call']], 'ret': None}, {'reg': [], 'ret': None}]}
+    # the registering step is the last instruction of an if_ / elif_ / else_ / while_ body and the outline goes on after it
+    for how in ('if', 'elif', 'else', 'while'):
+        for reg_how in ('ret', 'call'):
+            progs['in_%s_%s' % (how, reg_how)] = {'steps': [{'reg': [['k0', 0, 'fut', reg_how], ['k1', 1, 'child', 'call']], 'ret': None}, {'reg': [], 'ret': None},
+                                                         {'reg': [['k2', 2, 'fut', reg_how]], 'ret': None}, {'reg': [], 'ret': 'end'}],
+                                               'wrap': [how, None, how, None]}
     progs['samekey'] = {'steps': [{'reg': [['k', 0, 'fut', 'call'], ['k', 1, 'fut', 'ret']], 'ret': None}, {'reg': [], 'ret': None}]}
     return progs
 
@@ -73,7 +79,7 @@ def gen_cases(tier, seed):
             for (idx, kind), o in zip(items, oc):
                 if kind == 'fut':
                     spec = _outcomes('fut')[o]
-                    val = ['value', 'v%d' % idx] if spec[0] == 'value' else (['exc', 'e%d' % idx] if spec[0] == 'exc' else ['cancel'])
+                    val = ['value', 'v%d' % idx] if spec[0] == 'value' else (['exc', ('falsy-e%d' if rng.random() < 0.4 else 'e%d') % idx] if spec[0] == 'exc' else ['cancel'])
                     acts.append(['complete', idx, val])
                 else:
                     acts.append(['child', idx, _outcomes('child')[o]])
